@@ -179,12 +179,12 @@ def run_diag_eigen(case):
                 assume(eps.t > 0)
                 ft = FakeTorch()
                 with rebind([(mf, "torch", ft)]):
-                    if kind == "diagonal":
+                    if kind.startswith("diagonal"):
                         return mf._matrix_inverse_root_diagonal(A, root, eps), A, ft
                     return mf._matrix_inverse_root_eigen(A, root, epsilon=eps, retry_double_precision=False, enhance_stability=stab), A, ft
 
             paths = Explorer().run(fn)
-            func = "_matrix_inverse_root_diagonal" if kind == "diagonal" else "_matrix_inverse_root_eigen"
+            func = "_matrix_inverse_root_diagonal" if kind.startswith("diagonal") else "_matrix_inverse_root_eigen"
             for pi, p in enumerate(paths):
                 tag = f"[{case}/r{root.numerator}_{root.denominator}/s{int(stab)}]#p{pi}"
                 hyp = p.cond()
@@ -203,11 +203,25 @@ def run_diag_eigen(case):
                 res, A, ft = p.value
                 e = as_real(-1.0 / root).t
                 eps = z3.Real("epsilon")
-                if kind == "diagonal":
+                if kind.startswith("diagonal"):
                     dg = uf("diagonal", ARR, ARR)(A.v)
-                    want = uf("diag", ARR, ARR)(lam(lambda i: real_pow(z3.Select(dg, i) + eps, e)))
-                    out.append(prove(f"{func}/diag((a_ii+eps)^(-1/r)){tag}", func, hyp, res.at(IDX) == z3.Select(want, IDX), case=case, replay=rp,
-                                     text="diagonal fast path returns diag((a_ii + epsilon)^(-1/root)) — the general spectral formula restricted to diagonal PSD input"))
+                    dmin = uf("min_entry", ARR, z3.RealSort())(dg)
+                    if kind == "diagonal":
+                        # C10 (PSD input: no diagonal entry is negative)
+                        want = uf("diag", ARR, ARR)(lam(lambda i: real_pow(z3.Select(dg, i) + eps, e)))
+                        out.append(prove(f"{func}/diag((a_ii+eps)^(-1/r)){tag}", func, z3.And(hyp, dmin >= 0), res.at(IDX) == z3.Select(want, IDX), case=case, replay=rp,
+                                         text="diagonal fast path returns diag((a_ii + epsilon)^(-1/root)) — the general spectral formula restricted to diagonal PSD input"))
+                    else:
+                        # C11 (any finite symmetric input): the eigenvalues of a diagonal matrix are its diagonal entries, so the general path computes
+                        # f(a_ii) with f(x) = (x - min(min_j a_jj, 0) + eps)^(-1/r); the fast path must return the same value
+                        sh = lambda i: z3.Select(dg, i) - z3.If(dmin <= 0, dmin, 0) + eps
+                        want = uf("diag", ARR, ARR)(lam(lambda i: real_pow(sh(i), e)))
+                        out.append(prove(f"{func}/diagonal-fast-path=spectral-formula-for-any-sign{tag}", func, hyp, res.at(IDX) == z3.Select(want, IDX), case=case,
+                                         replay=dict(kind="diag_any_sign", root=[root.numerator, root.denominator]), model_vars=dict(epsilon=eps, min_diagonal_entry=dmin),
+                                         text="diagonal fast path = diag((a_ii - min(min_j a_jj, 0) + epsilon)^(-1/root)): the value of the general (eigendecomposition) path on a diagonal "
+                                              "matrix, finite and positive also when round-off left a slightly negative diagonal entry"))
+                        out.append(prove(f"{func}/diagonal-fast-path:shifted-entry>=epsilon>0{tag}", func, z3.And(hyp, dmin <= z3.Select(dg, IDX)), sh(IDX) >= eps, case=case,
+                                         text="every shifted diagonal entry is >= epsilon > 0"))
                     continue
                 X, L, Q = res
                 Aarg = A.v if not stab else lam(lambda i: z3.Select(A.v, i) + eps * z3.Select(uf("eye", z3.IntSort(), ARR)(z3.Int("n")), i))
@@ -655,7 +669,7 @@ def run_newton_loop(case):
             env, (X, Mm, flag, iters, err) = p.value
             conv = flag == mf.NewtonConvergenceFlag.CONVERGED
             itt = iters.t if isinstance(iters, SymInt) else z3.IntVal(iters)
-            goal = z3.And(err.at(0) == dist(Mm.v, ident), z3.BoolVal(X is env["X"] and Mm is env["M"]), itt >= 0, itt <= mx,
+            goal = z3.And(err.at(0) == dist(Mm.v, ident), X.at(IDX) == env["X"].at(IDX), Mm.at(IDX) == env["M"].at(IDX), itt >= 0, itt <= mx,
                           (err.at(0) <= tolv) if conv else z3.And(err.at(0) > tolv, itt == mx, z3.BoolVal(flag == mf.NewtonConvergenceFlag.REACHED_MAX_ITERS)))
             out.append(prove(f"{func}/loop/exit:flag-CONVERGED<=>residual<=tolerance-for-every-budget{tag}", func, p.cond(), goal, model_vars=mvs, case=case, replay=dict(kind="newton"),
                              text="from ANY loop-exit state: the returned error is ||M_returned - I||_inf of the returned M; CONVERGED iff it is <= tolerance; otherwise REACHED_MAX_ITERS with the whole budget used"))
@@ -802,7 +816,7 @@ def run_higher_loop(case):
                 itt = iters.t if isinstance(iters, SymInt) else z3.IntVal(iters)
                 nanX = uf("any_nan_float32", ARR, z3.BoolSort())(X.v)
                 infX = uf("any_inf_float32", ARR, z3.BoolSort())(X.v)
-                goal = z3.And(z3.Not(true_err.at(0) > as_real(1e-1).t), z3.Not(nanX), z3.Not(infX), itt >= 1, itt <= cap, z3.BoolVal(Mm is env["M"]))
+                goal = z3.And(z3.Not(true_err.at(0) > as_real(1e-1).t), z3.Not(nanX), z3.Not(infX), itt >= 1, itt <= cap, Mm.at(IDX) == env["M"].at(IDX))
                 out.append(prove(f"{func}/loop/exit:normal-return=>residual-within-guard-and-finite{tag}", func, hyp, goal, model_vars=mvs, case=case, replay=dict(kind="higher"),
                                  text="from ANY loop-exit state a returned result has |A X^p - I| <= 0.1 and no NaN/Inf (else ArithmeticError), for every iteration budget"))
                 errM = resid(Mm)
